@@ -511,7 +511,17 @@ DynArray* dyn_array_push_struct(DynArray* arr, const void* struct_ptr, size_t st
     assert(arr->elem_size == struct_size && "DynArray: Struct size mismatch");
     
     if (arr->length >= arr->capacity) {
+        /* The pushed struct may live in this very array ((array_push a (at a 0))): growing moves
+         * the data, so remember where it sits and find it again in the new block. */
+        const uint8_t *old_data = (const uint8_t*)arr->data;
+        size_t old_bytes = (size_t)arr->length * arr->elem_size;
+        bool inside = old_data != NULL && (const uint8_t*)struct_ptr >= old_data &&
+                      (const uint8_t*)struct_ptr < old_data + old_bytes;
+        size_t inside_off = inside ? (size_t)((const uint8_t*)struct_ptr - old_data) : 0;
         dyn_array_grow(arr);
+        if (inside) {
+            struct_ptr = (const uint8_t*)arr->data + inside_off;
+        }
     }
     
     /* Copy struct into array */
